@@ -31,6 +31,7 @@ ASSUMPTIONS = ["one corruption at a time", "archives of 3 versions in 2 packages
 
 SPECS = [TaskSpec("e", "run_experiment", []), TaskSpec("f", "run_experiment", [], pkg="p")]
 ARCH_ROWS = [("//:e", 5), ("//p:f", 6), ("//:e", 9)]        # (recorded in this order: the rows of one package are not adjacent)
+FS_BOUND = 48
 CORRUPTIONS = ("none", "index-removed", "directory-removed", "truncated", "version-already-recorded", "destination-exists", "member-header-damaged")
 PRIORS = ("empty", "other-versions", "format-1-index")
 _ARCH = {}
@@ -147,6 +148,9 @@ def make(only):
         kill = g.flag("kill") if prior != "format-1-index" else False       # (a kill during the upgrade of the index itself is not modelled)
         # cond's own stdout/stderr may be unable to encode non-ASCII characters (PYTHONIOENCODING=ascii, legacy locales)
         ascii_io = g.flag("stdout_cannot_encode_non_ascii") if (corruption == "none" and not kill) else False
+        # at most one file-system call made on behalf of Conductor under cond-out fails with EACCES (vlib.faults), its position a
+        # decision variable - only for an intact archive restored without a kill, where the restore would otherwise complete
+        fk = g.choose("fs_fault_at", FS_BOUND + 1) if (corruption == "none" and not kill and not stale and not ascii_io and prior == "other-versions") else 0
         D = "prior=%s stale_staging=%s corruption=%s%s" % (prior, stale, corruption, " ascii-only stdout" if ascii_io else "")
         k = None
         if kill:
@@ -175,10 +179,16 @@ def make(only):
             leftover_before = hrun.tree_digest(proj.out / "e.task.5") if corruption == "destination-exists" else None
             if k is None:
                 hrun.ASCII_ONLY_STDIO = ascii_io
+                from vlib import faults
+                flt = faults.OneFault(fk, proj.out)
                 try:
-                    res = hrun.invoke_argv(["restore", arch], str(proj.root), fakeos.Kernel(fakeos.Sched()))
+                    with flt:
+                        res = hrun.invoke_argv(["restore", arch], str(proj.root), fakeos.Kernel(fakeos.Sched()))
                 finally:
                     hrun.ASCII_ONLY_STDIO = False
+                if flt.fired:
+                    D += " injected fault: %s" % flt.fired
+                    g.goal("file-system fault during restore")
                 status = res.status
                 where = None
             else:
@@ -356,10 +366,11 @@ def _warm():
 
 def spaces(tier):
     _warm()
-    goals = ["restore completes", "restore killed midway", "restore fails"]
+    goals = ["restore completes", "restore killed midway", "restore fails", "file-system fault during restore"]
     sp = [Space("restore-faults", make(QUICK_ONLY),
                 "prior state {empty, other versions} x stale staging bit x 7 corruption kinds x (no kill | kill at every executed "
-                "line of cli/restore.py and execution/version_index.py)", depth="marker", goals=goals, tiers=("quick",),
+                "line of cli/restore.py and execution/version_index.py); for an intact archive onto a project with other versions additionally at most one "
+                "file-system call under cond-out (mkdir, copyfile, listdir, ...; k <= %d a decision variable) failing with EACCES" % FS_BOUND + ")", depth="marker", goals=goals, tiers=("quick",),
                 outside=["power loss / fsync", "two corruptions at once", "concurrent invocations"])]
     sp.append(Space("scale-ten-versions", scale_fn, "an archive of 10 versions of 5 tasks in 3 packages: intact, first / ninth directory missing, tenth version "
                     "already recorded; an archive of 20 versions whose restore is killed at points spread over the copy phase", depth=2, goals=["archive of ten versions"]))
